@@ -131,7 +131,7 @@ func CheckC12(r *Run) int {
 		}
 	}
 	sites = rest
-	nSites, window := 110, 2
+	nSites, window := 70, 2
 	if !quick {
 		nSites, window = 2500, 3
 	}
